@@ -6,6 +6,7 @@ import (
 
 	ipfslog "berty.tech/go-ipfs-log"
 	"berty.tech/go-orbit-db/iface"
+	"berty.tech/go-orbit-db/internal/verifhook"
 	"berty.tech/go-orbit-db/stores/operation"
 )
 
@@ -24,6 +25,7 @@ func (i *kvIndex) Get(key string) interface{} {
 func (i *kvIndex) UpdateIndex(oplog ipfslog.Log, _ []ipfslog.Entry) error {
 	entries := oplog.Values().Slice()
 	size := len(entries)
+	verifhook.Point("index.after_read")
 
 	handled := map[string]struct{}{}
 
